@@ -145,6 +145,33 @@ def make_scenarios(rng, tier):
         if kind == "protein":
             seqs = [x + "LKEF" for x in seqs]
         scs.append(dict(id="grp%d" % j, kind=kind, seqs=seqs, names=gen.names(rng, n), type=5, gpo=-1.0, gpe=-1.0, tgpe=-1.0, threads=[4, 1][j % 2], level=3, solo=True))
+    # gap runs of 256 and more columns: a domain of 255..700 residues present in some members and absent from others of one
+    # finished group, and relatives that join later with a short insertion somewhere inside that domain (columns opened in the
+    # middle of a long run of an earlier group); also a short read against a long reference (a long terminal run)
+    doms = [520, 256, 600, 700, 300, 1030, 255, 560] if tier == "quick" else [255, 256, 257, 300, 511, 512, 520, 600, 700, 1030] * 2
+    for j, DL in enumerate(doms):
+        kind = ["protein", "dna"][j % 2]
+        alpha = gen.AA if kind == "protein" else gen.DNA
+        fl = rng.randint(40, 120)
+        Pf, Qf, X = gen.rand_seq(rng, alpha, fl), gen.rand_seq(rng, alpha, fl), gen.rand_seq(rng, alpha, DL)
+        full = Pf + X + Qf
+        seqs = [full, gen.mutate(rng, full, alpha, 0.08, 0.0), Pf + Qf, gen.mutate(rng, Pf + Qf, alpha, 0.08, 0.0)]
+        cut = rng.randint(DL // 4, 3 * DL // 4)
+        ins = gen.rand_seq(rng, alpha, rng.randint(1, 15))
+        dv = rng.choice([0.3, 0.35, 0.4])
+        late = gen.mutate(rng, Pf, alpha, dv, 0.0) + gen.mutate(rng, X[:cut], alpha, dv, 0.0) + ins + gen.mutate(rng, X[cut:], alpha, dv, 0.0) + gen.mutate(rng, Qf, alpha, dv, 0.0)
+        seqs += [late, gen.mutate(rng, late, alpha, 0.08, 0.0)]
+        if j % 4 == 3:
+            seqs.append(gen.mutate(rng, X[cut - 20:cut + 20], alpha, 0.05, 0.0))      # a short read from inside the domain
+        if kind == "protein":
+            seqs = [x + "LKEF" for x in seqs]
+        order = list(range(len(seqs)))
+        rng.shuffle(order)
+        scs.append(dict(id="dom%d_%d" % (DL, j), kind=kind, seqs=[seqs[o] for o in order], names=gen.names(rng, len(seqs)), type=5, gpo=-1.0, gpe=-1.0, tgpe=-1.0,
+                        threads=[1, 4][j % 2], level=3, solo=True, allfmt=(j % 2 == 0)))
+        if j % 3 == 0:
+            scs.append(dict(id="domarr%d_%d" % (DL, j), kind=kind, seqs=[seqs[o] for o in order[:4]], names=gen.names(rng, 4), type=5, gpo=-1.0, gpe=-1.0, tgpe=-1.0,
+                            threads=1, api="array"))
     # larger runs: digests only (end-state invariants)
     big = [(40, 150), (110, 60), (130, 40)] if tier == "quick" else [(40, 300), (110, 200), (250, 120), (600, 60), (1500, 30), (12, 1200), (4, 3000)]
     for j, (n, L) in enumerate(big):
